@@ -88,11 +88,9 @@ def has_prefix_names(doc) -> bool:
 
 def check(run: Run, ctx) -> None:
     known = findings.Known(run, PROP)
-    for mod, name in (("vf.corr.c07", "Ops (status-key typing)"), ("vf.corr.parser", "Parser (permutation of declarations)")):
-        try:
-            g.run_corr(run, ctx, mod, name, quick=0.4, thorough=3.0)
-        except ModuleNotFoundError:
-            run.notes.append(f"{mod} not present yet")
+    g.run_corr(run, ctx, "vf.corr.c07", "Ops (status-key typing)", quick=0.3, thorough=3.0)
+    from . import _parser
+    _parser.run(run, ctx, PROP, known, quick=0.5, thorough=4.0)
     run.cov["rule"] = (run.cov.get("rule") or "") + ("[metamorphic e2e] per seeded document: renderings {JSON, YAML block, YAML flow} must give byte-identical trees; YAML with integer status keys the "
                        "same manifest; 2 random permutations of schemas/paths/properties the same manifest (models->fields, clients->signatures). Distinct by document; non-trivial when >=2 schemas and >=2 operations")
     cases = []
